@@ -14,11 +14,16 @@ import MM.Model.C21
 namespace MM.Engine.C21
 open MM MM.C23 MM.C21
 
-/-- bcrypt on the engine's hash tokens: `1 :: pw` is "a hash generated from pw", anything else
-    never matches. -/
+/-- The 72 key bytes Blowfish's `ExpandKey` actually uses: the key (password plus a NUL) repeated
+    cyclically and cut at 72 — bcrypt's well-known truncation. -/
+def cyc72 (k : Bytes) : Bytes :=
+  if k.isEmpty then [] else (List.range 72).map (fun i => k[i % k.length]!)
+
+/-- bcrypt on the engine's hash tokens: `1 :: pw` is "a hash generated from pw" (it matches every
+    password with the same 72 effective key bytes), anything else never matches. -/
 def bc (h p : Bytes) : Bool :=
   match h with
-  | 1 :: q => q == p
+  | 1 :: q => cyc72 (q ++ [0]) == cyc72 (p ++ [0])
   | _ => false
 
 def parseHash (s : String) : Option Bytes :=
@@ -45,12 +50,13 @@ inductive Op where
   | tcp (cfg : Cfg) (o : C23.Op)
   | ws (cfg : Cfg) (basic : Option (Bytes × Bytes))
 
-def parseOp (line : String) : Option Op :=
+partial def parseOp (line : String) : Option Op :=
   match tokens line with
   | ["a", en, us, di, be, inp] => do
     let users ← parseUsers us
     let o ← C23.parseOp s!"h - {di} {be} {inp}"
     pure (.tcp ⟨en = "1", users⟩ o)
+  | ["a", en, us, di, be, inp, _frag] => parseOp s!"a {en} {us} {di} {be} {inp}"
   | ["w", en, us, ba] => do
     pure (.ws ⟨en = "1", ← parseUsers us⟩ (← parseBasic ba))
   | _ => none
